@@ -113,7 +113,9 @@ WireOp(w, op) ==
                     ELSE IF w1.rst = 0 THEN [w1 EXCEPT !.rst = 1, !.ctl = [HwReset(@) EXCEPT !.nhw = @ + 1, !.tslpU = -1]]
                     ELSE [w1 EXCEPT !.rst = 1]
     [] k = "spi" -> LET w1 == [NoteTx(Touch(w)) EXCEPT !.ntx = @ + 1] IN
-                    IF op[3] # 1 THEN Failed(w1, op[3]) ELSE SpiWrite(w1, op[2])
+                    \* 3: the transaction failed after delivering the bytes logged (a prefix of what was to be sent)
+                    IF op[3] = 3 THEN Failed(SpiWrite(w1, op[2]), 3)
+                    ELSE IF op[3] # 1 THEN Failed(w1, op[3]) ELSE SpiWrite(w1, op[2])
     [] k = "spitx" -> LET w1 == [NoteTx(Touch(w)) EXCEPT !.ntx = @ + 1] IN
                     IF op[3] # 1 THEN Failed(w1, op[3]) ELSE FoldLeft(SpiSub, w1, op[2])
     [] k = "dly" -> Tick(w, op[2], op[3])
